@@ -25,5 +25,5 @@ A_StaleNeverBlocks == (IsGen /\ last.pre.bad = "none") => (last.exit = 0 /\ Comp
 \* C09: outcome and output are a function of the visible inputs only (history variable, 2-safety)
 A_HistoryIndependent == \A a, b \in runs : a.inp = b.inp => (a.exit = b.exit /\ (a.exit = 0 => a.out = b.out))
 \* C15: only gen steps touch generated files, and only when they succeed
-A_OnlyGenWrites == [][(st'.out # st.out) => (hist'[Len(hist')].op \in {"gen", "break", "delete"})]_vars
+A_OnlyGenWrites == [][(st'.out # st.out) => (hist'[Len(hist')].op \in {"gen", "break", "bloat", "scramble", "delete"})]_vars
 =============================================================================
